@@ -734,7 +734,8 @@ class IntegralOracle:
                 out.append("C12:enhancement-value:" + sig)
             if not close(np.asarray(res.values), np.real(want)):
                 out.append("C12:enhancement-value-default-real:" + sig)
-            for c in (3.0, -0.5, 2.0 - 1.5j):
+            # "any non-zero real or complex constant": of order one, and weak / strong signals (detector units differ by decades)
+            for c in (3.0, -0.5, 2.0 - 1.5j, 3.0e-9, -2.5e-10, 4.0e-12 * np.exp(1.1j), 7.0e9, -1.0e15):
                 sc = pre.copy(); sc.values = pre.values * c
                 r2 = dnp.calculate_enhancement(sc, off_spectrum_index=idx, return_complex_values=True)
                 if not close(r2.values, full.values):
@@ -858,6 +859,9 @@ class PhaseOracle:
     def post(self, op, st, line, pre):
         if pre is None or line["outcome"] != "ok":
             return []
+        if getattr(getattr(st, "last_args", None), "modified", lambda: False)():
+            # the caller's own angle arrays: used again for the next correction, negated for the inverse one
+            return ["C13:angle-array-changed-by-the-call:" + op_sig(op)]
         from implstore import to_float
         f, kw = op["f"], op["kw"]
         res = st.objs[op["out"]]
@@ -972,6 +976,8 @@ class BaselineOracle:
         return st.objs[op["obj"]].copy()
 
     def post(self, op, st, line, pre):
+        if pre is not None and getattr(getattr(st, "last_args", None), "modified", lambda: False)():
+            return ["C14:argument-array-changed-by-the-call:" + op_sig(op)]
         if pre is None or line["outcome"] != "ok":
             return []
         from implstore import to_float
